@@ -5,7 +5,7 @@ Protocol (one case per line; tokens contain no blanks):
   mock_eqdiff <type> <tok>... / <tok>...   two histories, then `EQ b DIFF [map] DEQ b`
   mock_pattern <type> r<row>...        from_pattern(rows) ('_' stands for ' '): `MAP [..] AA rect DBG text` or `PANIC kind`
   p_mock_hist / p_mock_eq / p_mock_pattern: the same inputs judged on the implementation alone against an independent map.
-tokens: dp:x:y:c  di:x:y:c;x:y:c;..  fs:x:y:w:h:c  fc:x:y:w:h:c,c,..  cl:c  sp:x:y:(c|n)  ao:b  ab:b      (operations)
+tokens: dp:x:y:c  di:x:y:c;x:y:c;..  fs:x:y:w:h:c  fc:x:y:w:h:c,c,..  cl:c  sp:x:y:(c|n)  sps:(c|n):x:y;x:y;..  ao:b  ab:b      (operations)
         gp:x:y  aa  dump  sw  dbg  mp:k (dump of map(raw -> (raw + k) mod #values))                      (probes)
   mock_points <type> <c> x:y...        from_points(points, c): `[map] AA rect` or `PANIC setpixel`
 colours are raw values of the colour type.
@@ -151,6 +151,18 @@ def history(rng, t, n, ao, ab, nops, probes=True, fresh=None):
             else:
                 toks.append('sp:%d:%d:%d' % (x, y, color(rng, t, n)))
                 drawn.add((x, y))
+        elif k < 0.955:
+            m = rng.choice([0, 1, 2, 4, 7])
+            ps = [rng.choice(sorted(drawn)) if drawn and len(drawn) < 200 and rng.random() < 0.5 else inpt(rng) for _ in range(m)]
+            if ps and rng.random() < 0.12:
+                ps.insert(rng.randrange(len(ps) + 1), outpt(rng))
+            if rng.random() < 0.5:
+                toks.append('sps:n:' + ';'.join('%d:%d' % p for p in ps))
+                if all(0 <= x < 64 and 0 <= y < 64 for x, y in ps):
+                    drawn.difference_update(ps)
+            else:
+                toks.append('sps:%d:' % color(rng, t, n) + ';'.join('%d:%d' % p for p in ps))
+                drawn.update(ps)
         elif k < 0.97:
             toks.append(rng.choice(['ao:0', 'ao:1', 'ab:0', 'ab:1']))
         else:
